@@ -775,6 +775,8 @@ class Explorer:
         self.deadline = None
         self.timed_out = False
         self.grid_budget = 4       # exactly-representable counterexample models requested per task (each may cost seconds)
+        self.xcheck_budget = 0     # property obligations of this task that are re-decided by cvc5 (second solver)
+        self.xcheck = {"agree": 0, "disagree": 0, "cvc5_unknown": 0, "samples": []}
 
     # --- solver plumbing
     def assume(self, c):
@@ -1119,6 +1121,16 @@ class SymCtx:
         known = [t for rid, t in self.regions if rid in self.known_regions]
         outside = [z3.Not(t) for t in known]
         r, m = self._find_model([neg] + outside)
+        if ex.xcheck_budget > 0 and r in ("sat", "unsat"):
+            ex.xcheck_budget -= 1
+            r2 = cvc5_decide(ex.solver, [neg] + outside)
+            if r2 == r:
+                ex.xcheck["agree"] += 1
+            elif r2 in ("sat", "unsat"):
+                ex.xcheck["disagree"] += 1
+                ex.xcheck["samples"].append({"label": label, "z3": r, "cvc5": r2})
+            else:
+                ex.xcheck["cvc5_unknown"] += 1
         if r == "sat":
             self.candidates.append({"label": label, "region": None, "inputs": self.input_model(m)})
             if self.ex.grid_budget > 0:
@@ -1149,6 +1161,37 @@ class SymCtx:
         if m is None:
             return None
         return self.input_model(m)
+
+
+def cvc5_decide(solver, extra, tlimit_ms=20000):
+    """Re-decide (assertions of `solver`) + extra with cvc5 through SMT-LIB2 text."""
+    try:
+        import cvc5
+        solver.push()
+        try:
+            for c in extra:
+                solver.add(c)
+            text = solver.to_smt2()
+        finally:
+            solver.pop()
+        text = "(set-logic ALL)\n" + text
+        tm = cvc5.TermManager()
+        slv = cvc5.Solver(tm)
+        slv.setOption("tlimit-per", str(tlimit_ms))
+        parser = cvc5.InputParser(slv)
+        parser.setStringInput(cvc5.InputLanguage.SMT_LIB_2_6, text, "query")
+        sm = parser.getSymbolManager()
+        out = None
+        while True:
+            cmd = parser.nextCommand()
+            if cmd.isNull():
+                break
+            res = cmd.invoke(slv, sm)
+            if "check-sat" in str(cmd):
+                out = str(res).strip()
+        return out if out in ("sat", "unsat") else "unknown"
+    except Exception as e:      # parse problems etc.: inconclusive for the cross-check, never a verdict
+        return "error:" + type(e).__name__
 
 
 def ex_timeout(ex):
